@@ -173,20 +173,41 @@ def rule_history(ctx: Ctx) -> None:
     ctx.require(len(lps) == 1, "CLEAR.__init__: expected one loop over the history")
     lp = lps[0]
     it = S(lp.text)
-    ctx.check(it == "enumerate(object_results[1:],1)", "C05-history", "CLEAR.__init__", "window",
-              f"the history loop iterates `{it}`; it must visit every frame after the first with its own index (enumerate(object_results[1:], 1))", fi=fi,
-              expected="enumerate(object_results[1:], 1)", found=it)
-    ivar, cvar = [U(x) for x in lp.node.target.elts] if isinstance(lp.node.target, ast.Tuple) else ("?", "?")
+    running = it == "object_results[1:]" and isinstance(lp.node.target, ast.Name)
+    if not running:
+        ctx.check(it == "enumerate(object_results[1:],1)", "C05-history", "CLEAR.__init__", "window",
+                  f"the history loop iterates `{it}`; it must visit every frame after the first with its own index (enumerate(object_results[1:], 1))", fi=fi,
+                  expected="enumerate(object_results[1:], 1)", found=it)
+        if it != "enumerate(object_results[1:],1)":
+            return
+    ivar, cvar = [U(x) for x in lp.node.target.elts] if isinstance(lp.node.target, ast.Tuple) else ("?", U(lp.node.target))
     for bp in lp.body:
         calls = find_calls(bp, "_calculate_tp_fp")
+        if running and not calls:
+            # a frame that is skipped must still become the predecessor of the next one
+            carried = [k for k, v in bp.env.items() if S(v) == cvar]
+            ctx.check(bool(carried) and bp.exit != ("continue",) or bool(carried), "C05-history", "CLEAR.__init__", f"running-prev:skip:{bp.cond_text()[:60]}",
+                      f"on the path [{strip_v(bp.cond_text())[:100]}] the frame is skipped without becoming the 'previous' frame: the next frame is compared with a frame two steps back", fi=fi,
+                      expected="previous = current on every path through the loop body", found="previous frame left unchanged")
+            continue
         ctx.require(len(calls) == 1, "CLEAR.__init__: _calculate_tp_fp is not called exactly once per frame")
         c = calls[0]
         a_cur = c.kwargs.get("cur_object_results") or (c.args[0] if c.args else None)
         a_prev = c.kwargs.get("prev_object_results") or (c.args[1] if len(c.args) > 1 else None)
-        ok = a_cur is not None and a_prev is not None and S(a_cur) == cvar and S(a_prev) == f"object_results[{ivar}-1]"
-        ctx.check(ok, "C05-history", "CLEAR.__init__", "pair",
-                  f"frame results are paired as (cur={S(a_cur) if a_cur is not None else None}, prev={S(a_prev) if a_prev is not None else None}); the predecessor must be object_results[i - 1]",
-                  fi=fi, expected=f"({cvar}, object_results[{ivar}-1])", found=f"({S(a_cur) if a_cur is not None else None}, {S(a_prev) if a_prev is not None else None})")
+        if running:
+            pname = strip_v(S(a_prev)) if a_prev is not None else ""
+            pre = (lp.pre or {}).get(pname)
+            ok0 = pre is not None and (S(pre) == "object_results[0]" or S(pre).startswith("object_results[0]if"))
+            ctx.check(a_cur is not None and S(a_cur) == cvar and isinstance(a_prev, ast.Name) and ok0, "C05-history", "CLEAR.__init__", "pair",
+                      f"frame results are paired as (cur={S(a_cur) if a_cur is not None else None}, prev={pname}, initially {S(pre) if pre is not None else None}); the running predecessor must start as object_results[0]", fi=fi)
+            adv = bp.env.get(pname)
+            ctx.check(adv is not None and S(adv) == cvar, "C05-history", "CLEAR.__init__", f"running-prev:advance:{len(bp.conds)}",
+                      f"after handling a frame the running predecessor is `{S(adv) if adv is not None else 'unchanged'}`; it must become the current frame on every path", fi=fi)
+        else:
+            ok = a_cur is not None and a_prev is not None and S(a_cur) == cvar and S(a_prev) == f"object_results[{ivar}-1]"
+            ctx.check(ok, "C05-history", "CLEAR.__init__", "pair",
+                      f"frame results are paired as (cur={S(a_cur) if a_cur is not None else None}, prev={S(a_prev) if a_prev is not None else None}); the predecessor must be object_results[i - 1]",
+                      fi=fi, expected=f"({cvar}, object_results[{ivar}-1])", found=f"({S(a_cur) if a_cur is not None else None}, {S(a_prev) if a_prev is not None else None})")
         call_txt = S(c.text)
         want = {"self.tp": 0, "self.fp": 1, "self.id_switch": 2, "self.tp_matching_score": 3}
         for e in bp.effects:
